@@ -287,8 +287,7 @@ def run_group(group, repo='/repo', outdir=None, seed=0, rlimit=None, extra_args=
             why.append('function without contract (extracted automatically because contracted code calls it)')
         if u['unit'] in helper_callers:
             why.append('calls a function without contract: ' + ', '.join(sorted(helper_callers[u['unit']])))
-        if any(r_[0] != 'fuzzy' and str(r_[1]).startswith('ANCHOR LOST') for r_ in u.get('rules', [])):
-            why.append('substitution anchor lost: ' + '; '.join(str(r_[1]) for r_ in u.get('rules', []) if str(r_[1]).startswith('ANCHOR LOST'))[:200])
+        # (a substitution whose source text is gone is not a missing proof aid: if the code still needs it, rustc / Verus reject the unit)
         if why:
             compromised[u['unit']] = '; '.join(why)
     if compromised:
